@@ -424,6 +424,14 @@ def scripted_histories(M):
         (([('x1', 'INPUT', ()), ('x2', 'INPUT', ()), ('sum', 'XOR', ('x1', 'x2')), ('m', 'OR', ('x1', 'sum'))], ('sum', 'm'), ()),
          [('set_outputs', ('sum',), {}, "set_outputs('sum')"), ('emplace_gate', ('n', T['NOT'], 'sum'), {}, "emplace_gate('n', NOT, 'sum')"),
           ('make_block', ('B', 'sum', ['sum']), {}, "make_block('B', 'sum', ['sum'])"), ('make_block', ('D', ['sum'], ['sum']), {'inputs': 'x1'}, "make_block('D', ['sum'], ['sum'], inputs='x1')")]),
+        # a gate that a block only declares as an output (it reads a member from outside) is removed, then the circuit is copied
+        ((two + [('g', 'AND', ('a', 'b')), ('h', 'OR', ('g', 'a')), ('k', 'XOR', ('g', 'b'))], ('g', 'h', 'k'), ()),
+         [('make_block', ('B', ['g'], ['g', 'h']), {}, "make_block('B', ['g'], ['g', 'h'])"), ('remove_gate', ('h',), {}, "remove_gate('h')"), ('__copy__', (), {}, 'copy.copy(circuit)'),
+          ('rename_gate', ('g', 'g2'), {}, "rename_gate('g', 'g2')"), ('__copy__', (), {}, 'copy.copy(circuit)')]),
+        # a block whose constant member is also read from outside the block is removed / cut out again
+        ((two + [('k', 'ALWAYS_TRUE', ()), ('g', 'AND', ('a', 'k')), ('h', 'OR', ('b', 'k'))], ('g', 'h'), ()),
+         [('make_block', ('B', ['k', 'g'], ['g']), {}, "make_block('B', ['k', 'g'], ['g'])"), ('remove_block', ('B',), {}, "remove_block('B')"),
+          ('make_block_from_slice', ('S', ['a'], ['g']), {}, "make_block_from_slice('S', ['a'], ['g'])"), ('remove_block', ('S',), {}, "remove_block('S')")]),
         # inputs re-ordered and fixed, an input renamed
         ((two + [('c', 'INPUT', ()), ('g', 'GT', ('a', 'b')), ('h', 'XOR', ('g', 'c'))], ('h', 'a'), ()),
          [('order_inputs', (['c', 'a'],), {}, "order_inputs(['c', 'a'])"), ('rename_gate', ('a', 'z'), {}, "rename_gate('a', 'z')"), ('replace_inputs', (['c'], []), {}, "replace_inputs(['c'], [])"),
@@ -486,6 +494,9 @@ def fold_histories(ck: Checker, R: str, only=None, observers=(), n_hist=None):
                 if name == 'into_bench' and before['inputs'] and not rec['problems']:
                     # C14 names no error: a well-formed circuit with an input must be converted
                     rec['problems'].append(f'into_bench raises {err} on a well-formed circuit with inputs after the history {" ; ".join(trail)} (start state {h % len(STARTS)})')
+                if name == '__copy__' and not rec['problems'] and R.startswith('C02'):
+                    # C02: "a copy is equal to ... its original" -- of every state public calls that returned have produced
+                    rec['problems'].append(f'copy.copy raises {err} on the well-formed circuit left by the history {" ; ".join(trail[:-1]) or "(start state)"} (start state {h % len(STARTS)})')
                 # a refused call: the history goes on from whatever state it left only if that state is still well formed
                 if problems(c):
                     break
